@@ -192,6 +192,33 @@ def expected(schema, qualify, lay, ids):
             'root_table': nm(rt) if (rt is not None and not isinstance(rt, str) and rt.kind == 'table') else None}
 
 
+def canon_refs(d):
+    """replace every Type.index by a content signature of the entry it points to (name + shape), then order entries with equal names by
+    that signature: with bgen_qualify_names=0 several namespaces may declare the same local name; the order among such ties is free, but
+    an index must still point at the DECLARED type (its members tell them apart)"""
+    import copy
+    d = copy.deepcopy(d)
+    def osig(o): return ('obj', o['name'], o['is_struct'], o['bytesize'], tuple((f['name'], f['type'][0], f['type'][1], f['offset']) for f in o['fields']))
+    def esig(e): return ('enum', e['name'], e['is_union'], tuple(e['underlying'] or ()), tuple((v['name'], v['value']) for v in e['values']))
+    osigs = [osig(o) for o in d['objects']]; esigs = [esig(e) for e in d['enums']]
+    OBJ, UNION, UTYPE = BT['Obj'], BT['Union'], BT['UType']
+    def fix(t):
+        if t is None: return None
+        b, el, ix, fl = t
+        if ix is None or ix < 0: return (b, el, ix, fl)
+        kind = el if b in (BT['Vector'], BT['Array']) else b
+        table = osigs if kind == OBJ else esigs
+        return (b, el, table[ix] if ix < len(table) else ('dangling', ix), fl)
+    for o in d['objects']:
+        for f in o['fields']: f['type'] = fix(f['type'])
+    for e in d['enums']:
+        e['underlying'] = fix(e['underlying'])
+        for v in e['values']: v['union_type'] = fix(v['union_type'])
+    d['objects'] = [o for _, o in sorted(zip(osigs, d['objects']), key=lambda x: (x[0][1].encode(), repr(x[0])))]
+    d['enums'] = [e for _, e in sorted(zip(esigs, d['enums']), key=lambda x: (x[0][1].encode(), repr(x[0])))]
+    return d
+
+
 def first_diff(a, b, path=''):
     """first difference between two nested structures (None in the expectation for minalign = not checked)"""
     if isinstance(a, dict) and isinstance(b, dict):
@@ -215,15 +242,15 @@ def first_diff(a, b, path=''):
     return None if a == b else (path, a, b)
 
 
-def sorted_problems(dec):
+def sorted_problems(dec, ties_ok=False):
     """every name / value keyed vector must be sorted strictly ascending by its key (byte order of names)"""
     out = []
-    def chk(what, keys):
+    def chk(what, keys, ties=False):
         for x, y in zip(keys, keys[1:]):
-            if not x < y: out.append((what, x, y)); break
-    chk('objects', [o['name'].encode() for o in dec['objects']])
-    chk('enums', [e['name'].encode() for e in dec['enums']])
-    chk('services', [s['name'].encode() for s in dec['services']])
+            if not (x <= y if ties else x < y): out.append((what, x, y)); break
+    chk('objects', [o['name'].encode() for o in dec['objects']], ties_ok)
+    chk('enums', [e['name'].encode() for e in dec['enums']], ties_ok)
+    chk('services', [s['name'].encode() for s in dec['services']], ties_ok)
     for o in dec['objects']: chk('fields of ' + o['name'], [f['name'].encode() for f in o['fields']])
     for e in dec['enums']: chk('values of ' + e['name'], [v['value'] for v in e['values']])
     for s in dec['services']: chk('calls of ' + s['name'], [c['name'].encode() for c in s['calls']])
@@ -258,7 +285,8 @@ def run(ctx):
         ctx.replay_case = (q, p, root, r, rp['schema_files'])
     nS = 240 if T else 40
     if ctx.replay_in: nS = 0
-    schemas = [G.gen_schema(random.Random(rng.getrandbits(64)), ['small', 'medium', 'medium', 'large'][i % 4] if T else ['small', 'medium'][i % 2]) for i in range(nS)]
+    # every third schema declares the same local names with different content in several namespaces (see gen Gen.add_shadowing)
+    schemas = [G.gen_schema(random.Random(rng.getrandbits(64)), ['small', 'medium', 'medium', 'large'][i % 4] if T else ['small', 'medium'][i % 2], shadow=(i % 3 == 0)) for i in range(nS)]
     # aimed: a ulong enum using the top bit (EnumVal.value is a signed long in reflection.fbs), calls declared in descending order
     aim = G.Schema(); fl = G.File('aimtop'); aim.files = [fl]
     e = G.Enum('Etop', [], 'ulong', bit_flags=True); e.members = [['Lo', 0], ['Mid', 62], ['Top', 63]]
@@ -293,7 +321,22 @@ def run(ctx):
     s2 = G.Struct('Sone', []); s2.fields = [{'name': 'a', 'type': ('scalar', 'int'), 'key': True}, {'name': 'b', 'type': ('scalar', 'ubyte')}]
     e2 = G.Enum('Eone', [], 'ubyte'); e2.members = [['A', None], ['B', None]]
     t3 = G.Table('Tone', []); t3.fields = [{'name': 'e', 'type': ('vec', ('enum', e2)), 'attrs': []}, {'name': 's', 'type': ('vec', ('scalar', 'int')), 'sorted': True, 'attrs': []}]
-    minis = [mini('monetable', [k1], k1), mini('monetableunion', [k2, uk2], k2), mini('monestruct', [s2]), mini('moneenumtable', [e2, t3], t3),
+    # the same local names in three namespaces, told apart by marker members; one table refers to all of them
+    same = []; users = []
+    for j, nsn in enumerate((['Aa'], ['Bb'], ['Cc', 'Dd'])):
+        st_ = G.Struct('Same', nsn); st_.fields = [{'name': 'mark%d' % j, 'type': ('scalar', ['ubyte', 'uint', 'double'][j])}]
+        en_ = G.Enum('SameE', nsn, ['ubyte', 'short', 'long'][j]); en_.members = [['V', j + 1], ['W%d' % j, j + 5]]
+        tb_ = G.Table('SameT', nsn); tb_.fields = [{'name': 'mark%d' % j, 'type': ('scalar', 'int'), 'default': ('int', j), 'attrs': []}]
+        un_ = G.Union('SameU', nsn); un_.members = [['SameT', ('table', tb_), None, False], ['Same', ('struct', st_), None, False], ['Mk%d' % j, ('string',), None, True]]
+        same += [st_, en_, tb_, un_]
+    ut_ = G.Table('UsesAll', [])
+    for j in range(3):
+        st_, en_, tb_, un_ = same[4 * j:4 * j + 4]
+        ut_.fields += [{'name': 's%d' % j, 'type': ('struct', st_), 'attrs': []}, {'name': 'e%d' % j, 'type': ('enum', en_), 'default': ('enum', 'V', j + 1), 'attrs': []},
+                       {'name': 't%d' % j, 'type': ('table', tb_), 'attrs': []}, {'name': 'u%d' % j, 'type': ('union', un_), 'attrs': []},
+                       {'name': 'vs%d' % j, 'type': ('vec', ('struct', st_)), 'attrs': []}, {'name': 've%d' % j, 'type': ('vec', ('enum', en_)), 'attrs': []},
+                       {'name': 'vt%d' % j, 'type': ('vec', ('table', tb_)), 'attrs': []}, {'name': 'vu%d' % j, 'type': ('vec', ('union', un_)), 'attrs': []}]
+    minis = [mini('msamenames', [same[k] for k in (8, 1, 4, 11, 0, 9, 6, 3, 2, 5, 10, 7)] + [ut_], ut_), mini('monetable', [k1], k1), mini('monetableunion', [k2, uk2], k2), mini('monestruct', [s2]), mini('moneenumtable', [e2, t3], t3),
              mini('mempty', []), mini('menums', [e1]), mini('mstructs', [s1]), mini('munion', [u1]), mini('mservice', [sv1]), mini('mtable0', [t0], t0),
              mini('menumsvc', [e1, sv1]), mini('munionsib', [ux, tx], tx)]
     if not ctx.replay_in:
@@ -419,12 +462,13 @@ def run(ctx):
         if s is None: exp = None
         else: exp = expected(s, q, lay, ids)
         dec_cmp = dict(dec, services=[dict(sv, calls=sorted(sv['calls'], key=lambda c: c['name'].encode())) for sv in dec['services']])
-        df = first_diff(exp, dec_cmp) if exp is not None else None
+        df = first_diff(canon_refs(exp), canon_refs(dec_cmp)) if exp is not None else None
         if df:
             what = df[0].rsplit('.', 1)[-1].rsplit('/', 1)[-1].split('#')[0]
             ctx.violation('content:%s' % what, 'binary schema differs from the schema at %s: expected %r, found %r (qualify=%d, prefix=%d)' % (df[0], df[1], df[2], q, p), rep)
         # ---- sorted + searchable
-        sp = sorted_problems(dec)
+        dupnames = q == 0 and (len({o['name'] for o in dec['objects']}) < len(dec['objects']) or len({e['name'] for e in dec['enums']}) < len(dec['enums']))
+        sp = sorted_problems(dec, ties_ok=(q == 0))
         topbit = any(e['underlying'][0] == BT['ULong'] and any(v['value'] < 0 for v in e['values']) for e in dec['enums'])
         S = dict(x.split('=', 1) for x in L.get('S', '').split()) if 'S' in L else {}
         for what, x, y in sp[:1]:
@@ -434,7 +478,7 @@ def run(ctx):
         for k in ('objects', 'enums', 'services', 'fields', 'calls', 'values'):
             if k in S:
                 fl, n = S[k].split('/'); stats[k] += int(n)
-                if int(fl):
+                if int(fl) and not (dupnames and k in ('objects', 'enums')):     # find returns the first of several equal unqualified names
                     ctx.violation('find:%s' % (k + '-ulong-top-bit' if (k == 'values' and topbit) else k), 'generated find fails for %s of %s %s entries (first: %s)' % (fl, n, k, S.get('first')), rep)
         for o in dec['objects']:
             for f in [o] + o['fields']:
